@@ -289,6 +289,14 @@ func scenarioMachine(c *hlib.RunCtx) *hlib.Violation {
 	telemetry.Default = telemetry.NewDir(m.tele)
 	os.MkdirAll(m.loc, 0777)
 	os.WriteFile(filepath.Join(m.loc, "weekends"), []byte(fmt.Sprintf("%d\n", t.Draw(7))), 0666)
+	if t.Bool(1, 6) {
+		// the user asked for logs: uploaders write them here, and data-named files may lie around
+		os.MkdirAll(filepath.Join(m.tele, "debug"), 0777)
+		os.WriteFile(filepath.Join(m.tele, "debug", "old.v1.count"), []byte("keep"), 0666)
+		os.WriteFile(filepath.Join(m.tele, "debug", "2024-01-08.json"), []byte("keep"), 0666)
+		os.WriteFile(filepath.Join(m.tele, "x.v1.count"), []byte("keep"), 0666)
+		s.Probe("debug-directory")
+	}
 
 	m.xs = []float64{mgen.Dyadic(1 << 18), mgen.Dyadic(1 << 19), mgen.Dyadic(1<<19 + 1), mgen.Dyadic(1<<19 - 1), mgen.Dyadic(1), mgen.Dyadic(1<<20 - 1), mgen.Dyadic(3 << 18)}
 	saveReader := rand.Reader
@@ -298,6 +306,11 @@ func scenarioMachine(c *hlib.RunCtx) *hlib.Violation {
 	configstore.VerifDownload = func(version string, env []string) (*telemetry.UploadConfig, string, error) {
 		simrt.Yield("config:download")
 		tk := simrt.Cur()
+		if t.Bool(1, 12) {
+			// a new version is published while the round's uploaders are at work
+			m.cfgs = append(m.cfgs, mgen.GenConfig(m.t, fmt.Sprintf("v0.%d.0", len(m.cfgs)+1)))
+			s.Probe("config-published-mid-round")
+		}
 		cur := m.cfgs[len(m.cfgs)-1]
 		if m.faultsOn && t.Bool(1, 12) {
 			m.dlFail[tk] = true
@@ -339,8 +352,8 @@ func scenarioMachine(c *hlib.RunCtx) *hlib.Violation {
 	m.serverPolicy = 0
 	if prop == "C08" {
 		m.serverPolicy = 1 + t.Draw(3)
-	} else if t.Bool(1, 5) {
-		m.serverPolicy = 1
+	} else if t.Bool(1, 3) {
+		m.serverPolicy = 1 + t.Draw(3) // reports stay ready across rounds: later rounds meet them with another date, mode or configuration
 	}
 	s.Transport = m.transport
 
@@ -465,6 +478,21 @@ func (m *machine) runRound(hist *[]string) {
 	reqsBefore := len(s.Requests)
 	// C09: the run's start time is placed relative to the recorded end of a file.
 	var explicitStart time.Time
+	if m.prop == "C02" && t.Bool(1, 5) {
+		// the run starts exactly 21 days after a week's end, a nanosecond earlier or later
+		var ends []time.Time
+		for _, mf := range m.roundFiles {
+			if mf.parseable && len(mf.week) == 10 {
+				ends = append(ends, time.Unix(int64(refcal.DaysFromCivil(atoi(mf.week[0:4]), atoi(mf.week[5:7]), atoi(mf.week[8:10])))*86400, 0).UTC())
+			}
+		}
+		sort.Slice(ends, func(i, j int) bool { return ends[i].Before(ends[j]) })
+		if len(ends) > 0 {
+			explicitStart = ends[t.Draw(len(ends))].Add(21*24*time.Hour + time.Duration(t.Draw(3)-1)*time.Nanosecond)
+			m.roundStart = explicitStart
+			m.s.Probe("start-21-days-after-a-week")
+		}
+	}
 	if m.prop == "C09" {
 		var ends []time.Time
 		for _, mf := range m.roundFiles {
